@@ -194,6 +194,17 @@ pub fn reload_book(b: &dyn DynBook, how: u8) -> Result<Box<dyn DynBook>, String>
     }
 }
 
+/// The two price values that denote market orders (bid at 2^32-1, ask at 0) are not limit prices; a
+/// generated request naming one of them is given the nearest ordinary grid price instead. A bid at 0
+/// and an ask at 2^32-1 are ordinary (if extreme) limit prices and pass through.
+pub fn limit_price(bid: bool, price: Option<u32>, tick: u32) -> Option<u32> {
+    match price {
+        Some(u32::MAX) if bid => Some(((u32::MAX - 1) / tick) * tick),
+        Some(0) if !bid => Some(tick),
+        p => p,
+    }
+}
+
 fn resolve(orders: &[OrderRec], r: Ref) -> Option<usize> {
     if orders.is_empty() {
         return None;
@@ -467,6 +478,7 @@ impl<'a> Run<'a> {
         match op {
             Op::Create { bid, vol, trader, price } | Op::CreatePlace { bid, vol, trader, price } => {
                 let placing = matches!(op, Op::CreatePlace { .. });
+                let price = &limit_price(*bid, *price, self.case.tick);
                 let vol = if is_drain {
                     *vol
                 } else {
@@ -596,7 +608,7 @@ impl<'a> Run<'a> {
                     kind = Kind::Modify;
                     let o = pre.orders[id].clone();
                     let mut vol = *vol;
-                    let price = *price;
+                    let price = limit_price(o.bid, *price, self.case.tick);
                     if o.status != St::Active {
                         expect_noop = true;
                         self.feat.redundant[2][o.status.code() as usize] += 1;
